@@ -89,6 +89,12 @@ def failure_group(r):
 def run_grid(out, pid, cases, one, mode, sanitize, budget, per_group=2):
     """phase 1: all instances; phase 2: extract + replay at most per_group counterexamples per failure group"""
     res = pmap(one, cases)
+    # a failure consisting only of unwinding assertions may be a too-tight bound of ours: re-run those loosely
+    def retry(r):
+        if r['verdict'] == 'FAILED' and all('unwinding' in f[1] or 'recursion' in f[1] for f in r['failed']):
+            r2 = one(r['case'], loose=True); r2['retried_loose'] = True; return r2
+        return r
+    res = pmap(retry, res)
     groups = {}
     for r in res:
         out.cov['obligations'] += 1; out.cov['solver_time_s'] += r['wall']
